@@ -10,6 +10,13 @@ ASSUMPTIONS = ['__dynamic_cast is modelled (rt/cxxabi_model.c) for public non-vi
 INERT = ['_ZNSt13runtime_errorC[12]EPKc', '_ZNSt13runtime_errorD[012]Ev', '_ZNSt17bad_function_callD[012]Ev']
 
 
+# concrete registration histories that are decided within the budget (measured: 2-4 s each; the others - mostly histories that register a class whose index is assigned
+# after a higher one, which reallocates the nested vectors out of order - gave no verdict in 60 s and are NOT covered)
+MAP_HIST = [(0, 0, 18), (1, 3, 18), (1, 10, 18), (1, 12, 18), (10, 1, 18), (4, 4, 13), (2, 6, 18), (8, 17, 8), (1, 10, 1), (1, 1, 10), (0, 4, 8), (5, 3, 1), (7, 7, 7), (3, 12, 3)]
+FAST3_HIST = [0, 1, 2, 4, 5, 6, 10, 11, 12, 15, 16, 20, 21, 22, 25, 26, 33, 35, 36, 40, 44, 46, 50, 51, 52, 53, 55, 56, 60, 61, 62, 63, 64, 65, 66]
+FAST2_HIST = [9, 19, 29, 39, 49, 59, 69, 79, 89, 99, 109, 119, 129, 139, 149, 159, 199, 209, 219, 229, 269, 279, 289, 299, 309, 319, 329, 339, 349, 359, 399, 409, 419, 429, 439, 449, 459, 469, 479, 489, 499, 539, 549, 559, 569, 579, 589, 599, 609, 619, 629, 669, 679, 689, 699, 739, 749, 759, 769, 779, 789, 799, 809, 819, 829, 839, 849, 859, 869, 879, 889, 899, 909, 919, 929, 939, 949, 959, 969, 979, 989, 999, 123, 448, 400, 876, 210]
+
+
 def units(tier):
     return [Unit('dispatch', 'wrappers.cpp', ['harness.c'], inert=INERT, rt=('verif_rt.c', 'cxxabi_model.c', 'libstdcxx_models.c'), tv=[('h_static', []), ('h_acyclic', []), ('h_cyclic', []), ('h_fast', [])], tv_iters=5000),
             Unit('tab', 'wrappers_tab.cpp', ['harness_tab.c'], inert=INERT, rt=('verif_rt.c', 'cxxabi_model.c', 'libstdcxx_models.c', 'rbtree_model.c'), tv=[('h_fast2', []), ('h_fast3', []), ('h_functor', []), ('h_map', [])], tv_iters=5000)]
@@ -21,6 +28,20 @@ def obligations(tier):
     # functor_dispatcher over basic_fast_dispatcher (h_fast / w_fast, kept for native translation validation only): one registration history with symbolic
     # dynamic types gave no verdict within 300 s (nested std::vector<std::function> reallocation paths), so it is not an obligation and not claimed
     obs += [Ob('functor', 'tab', 'h_functor', unwind=10, mem_unwind=40, bound='3 insert/erase steps over 9 cells, both casting policies, all dynamic type pairs', min_witnesses=3, timeout=600),
-            Ob('map2', 'tab', 'h_map', defines=['STEPS2'], unwind=6, mem_unwind=40, bound='2 insert/erase steps over 9 cells, all dynamic type pairs', min_witnesses=2, timeout=900)]
+            ]
+    # basic_dispatcher over the real std::map (rb-tree primitives modelled): concrete insert/erase histories (steps 0..8 insert cell, 9..17 erase cell, 18 nothing); a symbolic
+    # two-step history gave no verdict in 900 s
+    for (a, b, c) in MAP_HIST:
+        ob = Ob('map/h%02d_%02d_%02d' % (a, b, c), 'tab', 'h_map', defines=['HIST3=%d' % (361 * a + 19 * b + c)], unwind=6, mem_unwind=40, bound='history %d, %d, %d; all dynamic type pairs' % (a, b, c), min_witnesses=1, timeout=600); ob.harness_unwind = 12; obs.append(ob)
+    # basic_fast_dispatcher: one obligation per CONCRETE registration history (symbolic histories gave no verdict in 900 s: the nested vector reallocation paths);
+    # dynamic types of the arguments and the extra argument stay symbolic
+    import os
+    probe = os.environ.get('C17_PROBE')
+    f3 = [10 * a + b for a in range(7) for b in range(7)] if probe else FAST3_HIST
+    f2 = ([100 * a + 10 * b + 9 for a in range(10) for b in range(10)] + [705, 123, 448, 400, 84, 876, 210, 36, 363, 581]) if probe else FAST2_HIST
+    for h in f3:
+        obs.append(Ob('fast3/h%02d' % h, 'tab', 'h_fast3', defines=['HIST=%d' % h], unwind=5, mem_unwind=80, bound='registrations %d then %d (6 = none) of the triples table, all dynamic type triples' % (h // 10, h % 10), min_witnesses=1, timeout=60 if probe else 300))
+    for h in f2:
+        ob = Ob('fast2/h%03d' % h, 'tab', 'h_fast2', defines=['HIST=%d' % h], unwind=5, mem_unwind=80, bound='registrations of cells %d, %d, %d (9 = none), all dynamic type pairs' % (h // 100, h // 10 % 10, h % 10), min_witnesses=1, timeout=60 if probe else 300); ob.harness_unwind = 12; obs.append(ob)
     if tier == 'thorough': obs += [Ob(o.name + '@cadical', o.unit, o.fn, defines=o.defines, unwind=o.unwind, mem_unwind=o.mem_unwind, backend='cadical', min_witnesses=o.min_witnesses, timeout=1800) for o in list(obs)]
     return obs
